@@ -589,7 +589,6 @@ func c09PanicSafe(p *Prog, r *Report, rule, pkg string) int {
 	return n
 }
 
-
 // canonAccessPath renders an access path with the reference tree's field names where a field was
 // bound by role (so that a recorded known finding keeps matching after a mere rename).
 func canonAccessPath(p *Prog, typ *types.Named, path string) string {
